@@ -222,3 +222,52 @@ func res(ret *ssa.Return, i int) ssa.Value {
 	}
 	return v
 }
+
+// clusterOf: f, its closures and the package functions they call statically (transitively up to depth): the unit a
+// maintainer may freely redistribute code in by extracting/inlining helpers.
+func clusterOf(p *Prog, f *ssa.Function, depth int) []*ssa.Function {
+	seen := map[*ssa.Function]bool{}
+	var out []*ssa.Function
+	var visit func(fn *ssa.Function, d int)
+	visit = func(fn *ssa.Function, d int) {
+		if fn == nil || seen[fn] || fn.Blocks == nil || !p.InPkg(fn) {
+			return
+		}
+		seen[fn] = true
+		out = append(out, fn)
+		for _, a := range fn.AnonFuncs {
+			visit(a, d)
+		}
+		if d == 0 {
+			return
+		}
+		for _, b := range fn.Blocks {
+			for _, in := range b.Instrs {
+				if ci, ok := in.(ssa.CallInstruction); ok {
+					visit(ci.Common().StaticCallee(), d-1)
+				}
+			}
+		}
+	}
+	visit(f, depth)
+	return out
+}
+
+// existsPredicate: f is a small bool function whose result is the comma-ok of a lookup of its (string) parameter in
+// the given registry (FilterExists, tagExists, …).
+func existsPredicate(p *Prog, f *ssa.Function, reg *ssa.Global) bool {
+	if f == nil || f.Blocks == nil || f.Signature.Results().Len() != 1 || len(f.Params) != 1 {
+		return false
+	}
+	for _, ret := range returnsOf(f) {
+		ex, ok := res(ret, 0).(*ssa.Extract)
+		if !ok || ex.Index != 1 {
+			return false
+		}
+		lk, ok := ex.Tuple.(*ssa.Lookup)
+		if !ok || !isLoadOfGlobal(lk.X, reg) || lk.Index != ssa.Value(f.Params[0]) {
+			return false
+		}
+	}
+	return true
+}
